@@ -428,7 +428,8 @@ impl Kernel for CommWorld {
         }
         let callstr = format!("write/{}", buf.len());
         // the bytes offered must be the next bytes of the input, in order (C02: once, in order)
-        let want = &self.input[self.delivered..std::cmp::min(self.input.len(), self.delivered + buf.len())];
+        let from = std::cmp::min(self.input.len(), self.delivered);
+        let want = &self.input[from..std::cmp::min(self.input.len(), self.delivered + buf.len())];
         if want != buf {
             let m = format!(
                 "write() offers {} bytes that are not input[{}..{}] (input delivered twice, skipped or reordered)",
@@ -470,6 +471,37 @@ impl Kernel for CommWorld {
                     self.expect_close_next = true;
                 }
                 return Ans::Ret(0);
+            }
+            if buf.len() > 4096 && buf.len() > self.cap_in - std::cmp::min(self.cap_in, self.in_buf.len()) {
+                // A blocking write of more than PIPE_BUF that does not fit: the kernel takes what fits and keeps the caller
+                // blocked until the reader has made room for all of it (A2).  Time passes with the child's steps.
+                let mut done = 0;
+                self.in_poll = true; // the parent is blocked: the child may be slow
+                let r = loop {
+                    let room = self.cap_in - std::cmp::min(self.cap_in, self.in_buf.len());
+                    let take = std::cmp::min(room, buf.len() - done);
+                    self.in_buf.extend_from_slice(&buf[done..done + take]);
+                    self.delivered += take;
+                    done += take;
+                    if done == buf.len() {
+                        break Ans::Ret(done);
+                    }
+                    if !self.in_rd {
+                        break Ans::Err(libc::EPIPE);
+                    }
+                    if !self.child_step() {
+                        break Ans::Err(self.deadlock("write(stdin) of more than PIPE_BUF"));
+                    }
+                };
+                self.in_poll = false;
+                self.now += dt;
+                self.since = self.now;
+                self.no_progress = 0;
+                self.events.push(format!("p:{}:{}:{}:-=n{}", callstr, n, dt, done));
+                if self.delivered == self.input.len() {
+                    self.expect_close_next = true;
+                }
+                return r;
             }
             if self.cap_in > self.in_buf.len() {
                 let k = clampn(n, 1, std::cmp::min(buf.len(), self.cap_in - self.in_buf.len()));
@@ -748,10 +780,17 @@ pub fn run_case(p: &mut Popen, c: &Case) -> CaseOut {
             exp_out.extend_from_slice(&w.out_buf);
             let mut exp_err = ret_err.clone();
             exp_err.extend_from_slice(&w.err_buf);
+            let limited = c.session.iter().any(|(l, _)| l.is_some());
             if c.has_out && exp_out != w.g_out {
+                if limited {
+                    w.problem("C03", format!("stdout across size-limited reads: returned so far ({} bytes) + still in the pipe ({}) differs from what the child wrote ({}): bytes lost or repeated between reads", ret_out.len(), w.out_buf.len(), w.g_out.len()));
+                }
                 w.problem("C02", format!("stdout: returned so far ({} bytes) + still in the pipe ({}) differs from what the child wrote ({})", ret_out.len(), w.out_buf.len(), w.g_out.len()));
             }
             if c.has_err && exp_err != w.g_err {
+                if limited {
+                    w.problem("C03", format!("stderr across size-limited reads: returned so far ({} bytes) + still in the pipe ({}) differs from what the child wrote ({}): bytes lost or repeated between reads", ret_err.len(), w.err_buf.len(), w.g_err.len()));
+                }
                 w.problem("C02", format!("stderr: returned so far ({} bytes) + still in the pipe ({}) differs from what the child wrote ({})", ret_err.len(), w.err_buf.len(), w.g_err.len()));
             }
             let mut got_in = w.g_in.clone();
